@@ -19,7 +19,7 @@ ID = 'C19'
 LEVEL = 'exploration'
 RULE = ('Hypothesis-generated histories (<= 50 ops) over a znode tree under /svc with member names from a pool of 6 (names are '
         'reused) plus non-member children: create_member / delete_member / delete_parent (children first, events back to '
-        'back) / create_parent / callback_raises(next k consumer callbacks raise) / advance(0-20 ms), with per-call latencies '
+        'back) / create_parent / callback_raises(next k consumer callbacks raise) / callback_blocks(next k consumer callbacks take 8 ms) / advance(0-20 ms), with per-call latencies '
         '(0-3 ms) inside get / exists / get_children so that members vanish between listing and reading. The real ServerSet '
         'and the real kazoo DataWatch / ChildrenWatch recipes run on an in-process fake Kazoo client. Consumer 1 records '
         'on_join / on_leave; consumer 2 is a real HeapBalancerSink behind ZooKeeperServerSetProvider. At quiescence the '
@@ -56,6 +56,7 @@ def strategy(tier):
       (2, st.just(['create_parent'])),
       (1, st.tuples(st.just('other'), st.booleans()).map(list)),
       (2, st.tuples(st.just('raises'), st.integers(1, 3)).map(list)),
+      (2, st.tuples(st.just('slow'), st.integers(1, 3)).map(list)),
       (4, st.tuples(st.just('advance'), st.sampled_from([0, 1, 2, 5, 20])).map(list)),
       (2, st.just(['check'])),
       # a server re-registers under a new znode name with the same endpoint, both events in one listing
@@ -95,10 +96,16 @@ def execute(plan):
         zk.z_create('%s/%s' % (PATH, NAMES[i]), data(i))
     log = []
     raise_next = [0]
+    slow_next = [0]
 
     def cb(kind):
       def f(member):
         log.append((kind, member.name))
+        if slow_next[0] > 0:
+          # a consumer that blocks in its callback for a while (the balancer's own callbacks wait for its start-up)
+          slow_next[0] -= 1
+          flags.add('callback_blocked')
+          gevent.sleep(0.008)
         if raise_next[0] > 0:
           raise_next[0] -= 1
           flags.add('callback_raised')
@@ -280,6 +287,8 @@ def execute(plan):
           flags.add('parent_deleted_with_members_then_recreated')
       elif k == 'raises':
         raise_next[0] = op[1]
+      elif k == 'slow':
+        slow_next[0] = op[1]
       elif k == 'advance':
         advance(op[1] / 1000.0)
       elif k == 'check':
